@@ -487,6 +487,17 @@ func cmdServe(args []string) {
 				continue
 			}
 		}
+		if *prop == "C11" {
+			// life-cycle steps that must leave the abstract state - and hence the dispatch rule - as it is:
+			// a rejected Reconfigure, the documented no-op Reconfigure(Config()), a debug toggle
+			bad := cors.Config{Origins: []string{"https://other.example"}, MaxAgeInSeconds: -7}
+			m.Reconfigure(&bad)
+			bad2 := cors.Config{Origins: []string{"https://other.example"}, ResponseHeaders: []string{"Set-Cookie"}}
+			m.Reconfigure(&bad2)
+			m.Reconfigure(m.Config())
+			m.SetDebug(true)
+			m.SetDebug(false)
+		}
 		processed++
 		t.emit(map[string]any{"ev": "Config", "id": ci, "sem": s.toJSONb(), "cfg": cfgJSON(cfg)})
 		var reqs []reqSpec
@@ -509,7 +520,10 @@ func cmdServe(args []string) {
 		silent := &innerSpec{Status: 0}
 		switch *prop {
 		case "C10":
-			variants = append(variants, variant{presetVary, nil})
+			// Vary values set earlier in the chain, incl. ones that already end in / contain "Origin"
+			variants = append(variants, variant{presetVary, nil},
+				variant{http.Header{"Vary": {"Accept-Encoding, Origin"}}, nil},
+				variant{http.Header{"Vary": {"X-Forwarded-Origin"}}, nil})
 		case "C11":
 			variants = append(variants, variant{presetAll, nil}, variant{nil, busy}, variant{presetVary, silent}, variant{presetAll, busy})
 		}
